@@ -16,6 +16,8 @@ def specs_for(chk, n, profile):
         dim = dims[i % len(dims)]
         opts = {'squeeze': rng.random() < .15, 'two_inputs': profile.get('two_inputs', True) and rng.random() < .15,
                 'tcat': profile.get('tcat', True)}
+        if profile.get('reuse') and i % 4 == 1:
+            opts['reuse'] = True
         if profile.get('unsupported') and i % profile.get('unsupported_every', 6) == 0:
             opts['unsupported'] = 'add_cat' if (i // 6) % 2 == 0 else 'dw_cat'
         excl = None
@@ -31,7 +33,7 @@ def specs_for(chk, n, profile):
                     'styles': list(profile.get('styles', ['mixed', 'mixed', 'min'])),
                     'full_cost': (rng.random() < .5) if fc == 'mix' else bool(fc),
                     'train_mode': (rng.random() < .5) if tm == 'mix' else bool(tm),
-                    'extra_costs': extra})
+                    'extra_costs': extra, 'flags': profile.get('flags')})
     return out
 
 
@@ -59,6 +61,7 @@ def case_id(r, a=None):
             'fold_bn': r['spec']['fold_bn'], 'excl_mode': r['spec']['excl_mode'],
             'full_cost': r['spec'].get('full_cost'), 'train_mode': r['spec'].get('train_mode'),
             'extra_costs': r['spec'].get('extra_costs'), 'styles': r['spec'].get('styles'),
+            'flags': r['spec'].get('flags'), 'assign_flags': a.get('flags') if a else None,
             'prog': r.get('prog'), 'style': a.get('style') if a else None,
             'request': a.get('request') if a else None}
 
